@@ -156,6 +156,9 @@ pub enum Op {
     /// schema text (names and namespaces only) - the validator is consulted first thing
     UseValidator { which: Setting, tag: u32, #[serde(default)] direct: bool },
     UseCmp { tag: u32 },
+    /// parse a record called `no<tag>.Outer` with a nested named type that inherits the namespace
+    /// `no<tag>`: only the namespace validator with `tag` refuses that (otherwise valid) namespace
+    UseNamespaceInherited { tag: u32 },
 }
 
 impl Op {
@@ -169,6 +172,7 @@ impl Op {
             Op::UseHr { path } => format!("use_hr.{path:?}"),
             Op::UseValidator { which, .. } => format!("use_{:?}", which).to_lowercase(),
             Op::UseCmp { .. } => "use_cmp".into(),
+            Op::UseNamespaceInherited { .. } => "use_namespace_inherited".into(),
         }
     }
     pub fn is_setter(&self) -> bool {
@@ -181,6 +185,7 @@ impl Op {
             Op::SetHr(_) | Op::UseHr { .. } => Setting::Hr,
             Op::SetValidator { which, .. } | Op::UseValidator { which, .. } => *which,
             Op::SetCmp { .. } | Op::UseCmp { .. } => Setting::Cmp,
+            Op::UseNamespaceInherited { .. } => Setting::Namespace,
         }
     }
     /// every setting the operation reads (and so may initialise to its default)
@@ -206,6 +211,11 @@ impl Op {
                 }
             }
             Op::UseValidator { which, .. } if *which != Setting::Name => v.push(Setting::Name),
+            Op::UseNamespaceInherited { .. } => {
+                // the record carrying the nested type has a name and a field
+                v.push(Setting::Name);
+                v.push(Setting::Field);
+            }
             Op::UseHr { path } if path.decodes() => v.push(Setting::Alloc),
             _ => {}
         }
@@ -332,6 +342,8 @@ fn expected(op: &Op, s: Setting, v: Val, winner: bool, sizes: &Sizes) -> Option<
             }
         }
         (Op::UseValidator { tag, .. }, Val::Tag(t)) | (Op::UseCmp { tag }, Val::Tag(t)) => vec![Obs::Bool(t == Some(*tag))],
+        // accepted unless the validator that refuses this namespace is the one in force
+        (Op::UseNamespaceInherited { tag }, Val::Tag(t)) => vec![Obs::Bool(t != Some(*tag))],
         _ => vec![],
     })
 }
